@@ -97,8 +97,13 @@ fn mk_link(idx: usize, flip: usize, g: &LinkGeo, by_type: bool) -> Link {
         for l in other.speed_limits.iter_mut() {
             l.speed = l.speed * 2.0;
         }
-        m.insert(TrainType::Passenger, other.clone());
-        m.insert(TrainType::Intermodal, other);
+        m.insert(TrainType::Passenger, other);
+        // a third, distinct set (and not merely more permissive: half of its limits are below the freight ones)
+        let mut im = ss.clone();
+        for (k, l) in im.speed_limits.iter_mut().enumerate() {
+            l.speed = l.speed * if k % 2 == 0 { 1.5 } else { 0.5 };
+        }
+        m.insert(TrainType::Intermodal, im);
         (m, None)
     } else {
         (HashMap::new(), Some(ss))
